@@ -4,6 +4,7 @@ package main
 
 import (
 	"fmt"
+	"net/textproto"
 	"strconv"
 	"go/ast"
 	"go/types"
@@ -212,6 +213,27 @@ func init() {
 		}
 		return &Val{T: types.Typ[types.Bool], S: app("str.contains", a.S, b.S)}
 	}
+	models["strings.Join"] = func(u *Unit, st *State, x *ast.CallExpr, _ *Val, fn *types.Func) *Val {
+		u.trusted["model: strings.Join(xs, sep) contains every element, is \"\" for no elements, xs[0] for one, and starts with xs[0] otherwise"] = true
+		xs, sep := u.eval(st, x.Args[0]), u.eval(st, x.Args[1])
+		if xs.Arr == "" {
+			return &Val{T: types.Typ[types.String], S: u.d.fresh("joined", SStr)}
+		}
+		r := u.joinTerm(xs, sep.S)
+		bvCounter++
+		j := fmt.Sprintf("jn!%d", bvCounter)
+		arr := xs.Arr
+		if strings.HasPrefix(arr, "(") {
+			// name the array so that it can serve as a quantifier pattern
+			arr = u.d.fresh("joinarr", arrSort(SInt, SStr))
+			st.assumeFact(tEq(arr, xs.Arr))
+		}
+		st.assumeFact(fmt.Sprintf("(forall ((%s Int)) (! (=> (and (<= 0 %s) (< %s %s)) (str.contains %s (select %s %s))) :pattern ((select %s %s))))", j, j, j, xs.Len, r, arr, j, arr, j))
+		st.assumeFact(tImp(tEq(xs.Len, "0"), tEq(r, `""`)))
+		st.assumeFact(tImp(tEq(xs.Len, "1"), tEq(r, app("select", arr, "0"))))
+		st.assumeFact(tImp(app(">", xs.Len, "1"), app("str.prefixof", app("str.++", app("select", arr, "0"), sep.S), r)))
+		return &Val{T: types.Typ[types.String], S: r}
+	}
 	models["strings.TrimPrefix"] = func(u *Unit, st *State, x *ast.CallExpr, _ *Val, fn *types.Func) *Val {
 		a, b := u.eval(st, x.Args[0]), u.eval(st, x.Args[1])
 		return &Val{T: types.Typ[types.String], S: tIte(app("str.prefixof", b.S, a.S), app("str.substr", a.S, app("str.len", b.S), app("-", app("str.len", a.S), app("str.len", b.S))), a.S)}
@@ -220,7 +242,43 @@ func init() {
 		a, b := u.eval(st, x.Args[0]), u.eval(st, x.Args[1])
 		return &Val{T: types.Typ[types.String], S: tIte(app("str.suffixof", b.S, a.S), app("str.substr", a.S, "0", app("-", app("str.len", a.S), app("str.len", b.S))), a.S)}
 	}
-	for _, f := range []string{"strings.ToLower", "strings.ToUpper", "strings.TrimSpace", "net/http.CanonicalHeaderKey", "net/textproto.CanonicalMIMEHeaderKey"} {
+	models["net/http.CanonicalHeaderKey"] = func(u *Unit, st *State, x *ast.CallExpr, _ *Val, fn *types.Func) *Val {
+		a := u.eval(st, x.Args[0])
+		return &Val{T: types.Typ[types.String], S: u.canonHeader(a.S)}
+	}
+	models["net/textproto.CanonicalMIMEHeaderKey"] = models["net/http.CanonicalHeaderKey"]
+	models["slices.ContainsFunc"] = func(u *Unit, st *State, x *ast.CallExpr, _ *Val, fn *types.Func) *Val {
+		u.trusted["model: slices.ContainsFunc(xs, f) == exists i :: f(xs[i]) for a literal single-expression f"] = true
+		xs := u.eval(st, x.Args[0])
+		lit, ok := ast.Unparen(x.Args[1]).(*ast.FuncLit)
+		if !ok || len(lit.Body.List) != 1 || xs.Arr == "" {
+			u.eval(st, x.Args[1])
+			return u.freshVal(st, types.Typ[types.Bool], "containsfunc")
+		}
+		rs, isRet := lit.Body.List[0].(*ast.ReturnStmt)
+		var pv *types.Var
+		for _, f := range lit.Type.Params.List {
+			for _, nm := range f.Names {
+				pv, _ = u.info.Defs[nm].(*types.Var)
+			}
+		}
+		if !isRet || len(rs.Results) != 1 || pv == nil {
+			return u.freshVal(st, types.Typ[types.Bool], "containsfunc")
+		}
+		bvCounter++
+		qi := fmt.Sprintf("ci!%d", bvCounter)
+		tmp := st.clone()
+		tmp.noFacts++
+		tmp.vars[pv] = u.fromScalar(tmp, app("select", xs.Arr, qi), pv.Type())
+		saveSafety := u.safety
+		u.safety = false
+		u.quiet++
+		body := u.eval(tmp, rs.Results[0])
+		u.quiet--
+		u.safety = saveSafety
+		return &Val{T: types.Typ[types.Bool], S: fmt.Sprintf("(exists ((%s Int)) (and (<= 0 %s) (< %s %s) %s))", qi, qi, qi, xs.Len, body.S)}
+	}
+	for _, f := range []string{"strings.ToLower", "strings.ToUpper", "strings.TrimSpace"} {
 		f := f
 		models[f] = func(u *Unit, st *State, x *ast.CallExpr, _ *Val, fn *types.Func) *Val {
 			u.trusted["model: "+f+" is an uninterpreted function of its argument"] = true
@@ -232,8 +290,7 @@ func init() {
 	models["strings.EqualFold"] = func(u *Unit, st *State, x *ast.CallExpr, _ *Val, fn *types.Func) *Val {
 		u.trusted["model: strings.EqualFold(a,b) == (fold(a) == fold(b)) for an uninterpreted fold"] = true
 		a, b := u.eval(st, x.Args[0]), u.eval(st, x.Args[1])
-		uf := u.d.fun("fn!fold", []string{SStr}, SStr)
-		return &Val{T: types.Typ[types.Bool], S: tEq(app(uf, a.S), app(uf, b.S))}
+		return &Val{T: types.Typ[types.Bool], S: tEq(u.foldStr(a.S), u.foldStr(b.S))}
 	}
 
 	// ---- errors
@@ -270,11 +327,7 @@ func init() {
 	}
 
 	// ---- net/http.Header: map[string][]string with canonicalised keys (canon is an uninterpreted function)
-	canon := func(u *Unit, k string) string {
-		u.trusted["model: net/http.Header methods canonicalise keys with an uninterpreted, idempotent function canon"] = true
-		uf := u.d.fun("fn!net/http.CanonicalHeaderKey", []string{SStr}, SStr)
-		return app(uf, k)
-	}
+	canon := func(u *Unit, k string) string { return u.canonHeader(k) }
 	hdrMap := func(u *Unit, recv *Val) types.Type { return types.Unalias(recv.T).Underlying() }
 	models["(net/http.Header).Set"] = func(u *Unit, st *State, x *ast.CallExpr, recv *Val, fn *types.Func) *Val {
 		k, v := u.eval(st, x.Args[0]), u.eval(st, x.Args[1])
@@ -898,4 +951,46 @@ func (u *Unit) newError(st *State) string {
 	st.wm = r
 	u.plainErrs = append(u.plainErrs, r)
 	return r
+}
+
+// canonHeader: net/http's canonical header key. Computed for literals, an uninterpreted function otherwise.
+func (u *Unit) canonHeader(k string) string {
+	u.trusted["model: http.CanonicalHeaderKey is an uninterpreted function, evaluated by govc on string literals"] = true
+	if lit, ok := unquoteSMT(k); ok {
+		return strLit(textproto.CanonicalMIMEHeaderKey(lit))
+	}
+	uf := u.d.fun("fn!net/http.CanonicalHeaderKey", []string{SStr}, SStr)
+	return app(uf, k)
+}
+
+// foldStr: strings.EqualFold(a,b) <=> fold(a) == fold(b). For ASCII literals fold is the lower-case literal.
+func (u *Unit) foldStr(s string) string {
+	u.trusted["model: strings.EqualFold(a,b) == (fold(a) == fold(b)); fold of an ASCII literal is its lower-case form"] = true
+	if lit, ok := unquoteSMT(s); ok && isASCII(lit) {
+		return strLit(strings.ToLower(lit))
+	}
+	uf := u.d.fun("fn!fold", []string{SStr}, SStr)
+	return app(uf, s)
+}
+
+func unquoteSMT(s string) (string, bool) {
+	if len(s) >= 2 && s[0] == '"' && s[len(s)-1] == '"' && !strings.Contains(s[1:len(s)-1], "\\u{") {
+		return strings.ReplaceAll(s[1:len(s)-1], `""`, `"`), true
+	}
+	return "", false
+}
+
+func isASCII(s string) bool {
+	for _, c := range s {
+		if c > 127 {
+			return false
+		}
+	}
+	return true
+}
+
+// joinTerm: strings.Join as an uninterpreted function of (contents, length, separator).
+func (u *Unit) joinTerm(xs *Val, sep string) string {
+	f := u.d.fun("fn!strings.Join", []string{arrSort(SInt, SStr), SInt, SStr}, SStr)
+	return app(f, xs.Arr, xs.Len, sep)
 }
